@@ -35,7 +35,7 @@ from .alg import (
     mk_sum,
     mk_prod,
 )
-from .interp import UNIT, HashV, IterV, RngBuilder, RngV, Tr, subst_val
+from .interp import UNIT, HashV, IterV, RngBuilder, RngV, Tr, subst_val, slog
 
 MODELS = {}
 
@@ -143,6 +143,7 @@ def vec_macro(I, e, env):
     if p.endswith("from_elem"):
         x = I.ev(e["args"][0], env)
         n = I.ev(e["args"][1], env)
+        log_alloc(I, n.e, e)
         return Vec.const(x, n.e)
     for n in FX.walk(e):
         if n["k"] == "Array":
@@ -179,6 +180,8 @@ def m_inverse(I, a, e, ci):
     if not isinstance(x, Sc):
         raise Unanalysable(f"inverse of {x!r}")
     I.asserts.append(("inverse", x.e, FX.short(e.get("sp"))))
+    is_chal = x.e.is_Symbol and str(x.e).startswith("ch[") or (x.e.is_Function and str(x.e.func).startswith("ch["))
+    slog(I, "inverse", e, is_chal, f"inverse of {x.e}" + (" (a transcript challenge: zero with probability 2^-250)" if is_chal else ""))
     return Enum("Option", "Some", [Sc(x.e**-1)])
 
 
@@ -311,6 +314,7 @@ def m_msm(I, a, e, ci):
         raise Unanalysable(f"msm({bases!r},{scalars!r})")
     lb, ls = bases.length(), scalars.length()
     equal = eq(lb, ls) or (le(lb, ls, I.bounds) and le(ls, lb, I.bounds))
+    slog(I, "msm", e, equal, f"msm over {lb} bases and {ls} scalars")
     I.msm_log.append({"where": FX.short(e.get("sp")), "fn": I.fn_stack[-1] if I.fn_stack else "", "len_bases": lb, "len_scalars": ls, "equal": equal, "bases": bases, "scalars": scalars})
     if not equal:
         # msm returns Err on unequal lengths (ark-ec 0.4.2); the value is not used by any sink rule
@@ -342,13 +346,17 @@ def as_sc(v):
 def m_unwrap(I, a, e, ci):
     v = a[0]
     if isinstance(v, Enum) and v.variant in ("Some", "Ok"):
+        slog(I, "unwrap", e, True, "value is Some/Ok on every path")
         return v.payload[0] if v.payload else UNIT
     if isinstance(v, Ite):
         for good in (v.a, v.b):
             if isinstance(good, Enum) and good.variant in ("Some", "Ok"):
                 I.asserts.append(("unwrap-conditional", v.cond, FX.short(e.get("sp"))))
+                slog(I, "unwrap", e, False, f"unwrap of a value that is Err/None when {v.cond if good is v.b else v.cond.negate()}")
                 return good.payload[0] if good.payload else UNIT
     if isinstance(v, Opaque) and v.what == "result":
+        tested = I.pick_assumed(Cond("is_ok", text=repr(v)))
+        slog(I, "unwrap", e, tested is True, "dominated by is_ok() on the same value" if tested else f"unwrap of a fallible result ({v.info.get('desc')})")
         return v.info.get("ok", UNIT)
     raise Unanalysable(f"unwrap of {v!r}", FX.short(e.get("sp")))
 
@@ -415,6 +423,21 @@ def m_npow2(I, a, e, ci):
     return IntV(n + sfun("pad")(n))
 
 
+@model("std::cmp::Ord::max", "core::cmp::Ord::max", "std::cmp::max")
+def m_max(I, a, e, ci):
+    x, y = a
+    if isinstance(x, IntV) and isinstance(y, IntV):
+        if le(x.e, y.e, I.bounds):
+            return y
+        if le(y.e, x.e, I.bounds):
+            return x
+        mx = sfun("MAX2")(sp.expand(x.e), sp.expand(y.e))
+        I.bounds.add_le(x.e, mx)
+        I.bounds.add_le(y.e, mx)
+        return IntV(mx)
+    raise Unanalysable(f"max of {x!r}, {y!r}")
+
+
 @model("core::num::<impl usize>::trailing_zeros", "core::num::<impl u32>::leading_zeros", "core::num::<impl usize>::is_power_of_two")
 def m_intfn(I, a, e, ci):
     name = (ci.get("path") or "").split("::")[-1]
@@ -427,13 +450,23 @@ def m_intfn(I, a, e, ci):
 # vectors and iterators
 
 
+def log_alloc(I, size, e):
+    size = sp.expand(size)
+    proofish = [str(x) for x in size.free_symbols if str(x).startswith(("lg", "len_bytes"))] + [str(f.func) for f in size.atoms(sp.Function) if str(f.func).startswith(("lgk",))]
+    ok = not proofish or le(size, 64, I.bounds)
+    slog(I, "alloc", e, ok, f"allocation of {size} elements" + (f" (depends on proof-controlled {proofish})" if proofish else ""))
+
+
 @model("std::vec::Vec::<T>::new", "std::vec::Vec::<T>::with_capacity")
 def m_vec_new(I, a, e, ci):
+    if a and isinstance(a[0], IntV):
+        log_alloc(I, a[0].e, e)
     return Vec([])
 
 
 @model("std::vec::from_elem")
 def m_from_elem(I, a, e, ci):
+    log_alloc(I, a[1].e, e)
     return Vec.const(a[0], a[1].e)
 
 
